@@ -71,7 +71,7 @@ static void fill_input(uint8_t* p, size_t n, int pat, uint64_t param) {
     }
 }
 static size_t pick_len(int64_t ci, int scale) {
-    static const size_t fixed[] = {255, 256, 257, 4095, 4096, 4097, 65535, 65536, 65537, 131071, 131072, 131073, 70000, 100000, 200000};
+    static const size_t fixed[] = {255, 256, 257, 4095, 4096, 4097, 65535, 65536, 65537, 131071, 131072, 131073, 70000, 100000, 200000, 262143, 262144, 262145, 524288, (1u << 20) - 1, 1u << 20, (1u << 20) + 1, 2u << 20, 3u << 20};   /* incl. exact MiB multiples: chunked implementations change behaviour there */
     if (ci <= 70) return (size_t)ci;
     if (ci < 70 + (int64_t)(sizeof fixed / sizeof *fixed) * 3) return fixed[(ci - 71) % (sizeof fixed / sizeof *fixed)];
     int c = (int)vrng_below(&R, 100);
